@@ -22,6 +22,14 @@ CLAIMS = {
              "semantics through value-level bookkeeping (predicates), vehicle/shift existence, identity of breaks/reloads.",
         note="std collection method names classify removal/arrival; table rows are function level with reasons.",
         ref="DESIGN.md §5 C02"),
+    "C03": dict(
+        technique="same-field def-use analysis of the statistic sum / per-leg accumulator + units-of-measure pass over cost products",
+        text="Narrow clauses: the pragmatic Statistic sum is field-wise over every scalar field of Statistic and Timing and the overall statistic folds tour "
+             "statistics with it; the per-leg accumulator of create_tour computes every field from the same field of the running statistic; every product "
+             "of a cost coefficient pairs a per-distance coefficient with a distance and a per-time coefficient with a time. Not decided: equality up to "
+             "rounding with an independent replay, load profiles, tag correctness.",
+        note="Names distance/duration/waiting/... and Costs field names act as unit declarations; unknown units are silent.",
+        ref="DESIGN.md §5 C03"),
     "C04": dict(
         technique="type-level aliasing argument (signatures + no interior mutability + forbid(unsafe)) and MIR typestate / guard analysis",
         text="Static analysis of all MIR bodies: `parent unchanged` is decided for every operator and history as a type-level argument "
@@ -77,6 +85,14 @@ CLAIMS = {
              "matches its documentation, exactness of codes == violated rules, input-derived panics in readers for fields no rule covers.",
         note="Docs headings are taken as the rule table; reader panics on unvalidated fields are listed in DESIGN.md as observations, not decided.",
         ref="DESIGN.md §5 C10"),
+    "C11": dict(
+        technique="serde attribute symmetry table from a syn AST scan + JSON-kind distinguishability argument for untagged enums + record-field liveness",
+        text="Narrow clauses: every type reachable from the Problem/Matrix/Solution documents derives both Serialize and Deserialize, carries no one-sided "
+             "attribute, renames agree on both sides, skip_serializing_if is only Option::is_none on Option fields; for every untagged enum no later "
+             "variant serialises to JSON an earlier variant accepts; tagged enums have unique tags; every CSV import column is consumed. Not decided: float "
+             "text round trip, activity matching when a solution is re-read, faithfulness of CSV values.",
+        note="serde derive semantics for the listed attributes are trusted.",
+        ref="DESIGN.md §5 C11"),
     "C12": dict(
         technique="call-graph reachability of checker rules, breach-class table, dropped-Result scan, constant-feasible CFG reachability of error sites",
         text="Nothing silently unchecked: every checker rule function is reachable from CheckerContext::check, each documented breach class maps to a wired "
